@@ -76,6 +76,12 @@ func init() {
 		"bounded: all create/revoke sequences over 2 owners x 7 serials (0,1,255,256,257,2^64,2^159) plus two create requests naming another account, to the stated depth",
 		"certificates with serial 0 are produced by patching DER (the chain never verifies the self-signature)"},
 		Runs: []runSpec{{"S-cert", 4, 6, nil}}}
+	props["C16"] = propSpec{Checker: func() Checker { return chkC16{} }, Assume: []string{
+		"the provider's decoder is mirrored from events.processEvent (unexported): sdk.StringifyEvent -> sdkutil.ParseEvent -> deployment/market/provider/audit ParseEvent in that order",
+		"expected events are derived from the pre/post state diff, so a change that is undone inside the same transaction is not expected to be announced",
+		"bounded: S-life / S-escrow / S-attr histories to the stated depth; codec grid over the colliding id set and prices 1, 2^63-1, 2^64, 10^30"},
+		Extra: func(th bool) (extraResult, error) { return CheckEventCodecs() },
+		Runs:  []runSpec{{"S-life", 5, 6, nil}, {"S-escrow", 5, 7, nil}, {"S-leased", 5, 6, nil}}}
 	props["C03"] = propSpec{Checker: func() Checker { return chkC03{} }, Assume: common,
 		Runs: []runSpec{{"S-escrow", 5, 7, nil}, {"S-leased", 5, 6, nil}, {"S-life", 4, 6, nil}}}
 	props["C04"] = propSpec{Checker: func() Checker { return chkC04{} }, Assume: common,
@@ -227,9 +233,14 @@ func main() {
 			exit = 1
 		}
 	}
+	reported := map[string]bool{}
 	for _, f := range all {
 		scName := strings.TrimPrefix(f.Names[0], "scenario:")
 		hist := f.Names[1:]
+		if reported[f.Viol.Inv+"|"+f.Viol.Sig] {
+			continue // same invariant+signature already reported from an earlier scenario
+		}
+		reported[f.Viol.Inv+"|"+f.Viol.Sig] = true
 		if f.Known {
 			kf, _ := findings.Known(*prop, f.Viol.Inv+"|"+f.Viol.Sig)
 			fmt.Printf("KNOWN-FINDING: property=%s %s [%s] shortest history in %s: %s\n", *prop, kf.What, f.Viol.Inv+"|"+f.Viol.Sig, scName, strings.Join(hist, " ; "))
